@@ -2,7 +2,7 @@
    This file holds only pinned statements, `exact` proofs and Print Assumptions. *)
 From PV Require Import Base.MachineInt Model.Znx Model.Limbs Model.C08Oracle Proofs.ZnxDigit Proofs.C08Steps
   Proofs.C08Chain Proofs.C08Loops Proofs.C08Value Proofs.C08Normalize Proofs.C08Shift Proofs.C08Rsh
-  Proofs.C08ShiftValue Proofs.C08RshValue.
+  Proofs.C08ShiftValue Proofs.C08RshValue Proofs.C08CoeffOk Proofs.C08Cross.
 Open Scope Z_scope.
 
 Theorem C08_digit_spec : forall w b x : Z, 1 <= b <= w -> get_digit w b x = wrap b x.
@@ -326,3 +326,71 @@ Theorem C08_rsh_ov_nth : forall b : Z, 1 <= b <= 62 -> forall (k : Z) (a r0 : li
     nthZ out i = dgz b (vin a lsh) (zn (length a) - (- zn steps) - 1 - zn i).
 Proof. exact rsh_ov_nth. Qed.
 Print Assumptions C08_rsh_ov_nth.
+
+(* ---------------- the executable oracle never fails on the model ---------------- *)
+(* `coeff_ok rb ab off keep sgn need_bal a r0 out` (Model/C08Oracle.v) is the per-coefficient statement of C08
+   that check.py evaluates on the implementation's outputs: 1 = holds, 0 = fails, 2 = outside the |x| <= 2^60 guard.
+   On the outputs of the same-radix models it is never 0, for every radix 1..62, size, offset and content. *)
+
+Theorem C08_coeff_ok_normalize_inter : forall b : Z, 1 <= b <= 62 -> forall (off : Z) (a r0 : list Z),
+  coeff_ok b b off 0 1 true a r0 (normalize_inter 64 b off a r0) <> 0.
+Proof. exact coeff_ok_normalize_inter. Qed.
+Print Assumptions C08_coeff_ok_normalize_inter.
+
+Theorem C08_coeff_ok_normalize_assign : forall b : Z, 1 <= b <= 62 -> forall r0 : list Z,
+  coeff_ok b b 0 0 1 true r0 r0 (normalize_assign 64 b r0) <> 0.
+Proof. exact coeff_ok_normalize_assign. Qed.
+Print Assumptions C08_coeff_ok_normalize_assign.
+
+Theorem C08_coeff_ok_lsh_assign : forall b : Z, 1 <= b <= 62 -> forall (k : Z) (r0 : list Z), 0 <= k ->
+  coeff_ok b b k 0 1 true r0 r0 (lsh_assign 64 b k r0) <> 0.
+Proof. exact coeff_ok_lsh_assign. Qed.
+Print Assumptions C08_coeff_ok_lsh_assign.
+
+Theorem C08_coeff_ok_lsh : forall b : Z, 1 <= b <= 62 -> forall (ov : bool) (k : Z) (a r0 : list Z), 0 <= k ->
+  coeff_ok b b k (if ov then 0 else 1) 1 ov a r0 (lsh 64 ov b k a r0) <> 0.
+Proof. exact coeff_ok_lsh. Qed.
+Print Assumptions C08_coeff_ok_lsh.
+
+Theorem C08_coeff_ok_lsh_sub : forall b : Z, 1 <= b <= 62 -> forall (k : Z) (a r0 : list Z), 0 <= k ->
+  coeff_ok b b k 1 (-1) false a r0 (lsh_sub 64 b k a r0) <> 0.
+Proof. exact coeff_ok_lsh_sub. Qed.
+Print Assumptions C08_coeff_ok_lsh_sub.
+
+Theorem C08_coeff_ok_rsh_assign : forall b : Z, 1 <= b <= 62 -> forall (k : Z) (r0 : list Z), 0 <= k ->
+  coeff_ok b b (- k) 0 1 true r0 r0 (rsh_assign 64 b k r0) <> 0.
+Proof. exact coeff_ok_rsh_assign. Qed.
+Print Assumptions C08_coeff_ok_rsh_assign.
+
+Theorem C08_coeff_ok_rsh_ov : forall b : Z, 1 <= b <= 62 -> forall (k : Z) (a r0 : list Z), 0 <= k ->
+  coeff_ok b b (- k) 0 1 true a r0 (rsh 64 true b k a r0) <> 0.
+Proof. exact coeff_ok_rsh_ov. Qed.
+Print Assumptions C08_coeff_ok_rsh_ov.
+
+Theorem C08_coeff_ok_rsh_add : forall b : Z, 1 <= b <= 62 -> forall (k : Z) (a r0 : list Z), 0 <= k ->
+  coeff_ok b b (- k) 1 1 false a r0 (rsh 64 false b k a r0) <> 0.
+Proof. exact coeff_ok_rsh_add. Qed.
+Print Assumptions C08_coeff_ok_rsh_add.
+
+Theorem C08_coeff_ok_rsh_sub : forall b : Z, 1 <= b <= 62 -> forall (k : Z) (a r0 : list Z), 0 <= k ->
+  coeff_ok b b (- k) 1 (-1) false a r0 (rsh_sub 64 b k a r0) <> 0.
+Proof. exact coeff_ok_rsh_sub. Qed.
+Print Assumptions C08_coeff_ok_rsh_sub.
+
+(* the guard is met, so the verdict is 1, on a concrete un-normalised input *)
+Example C08_coeff_ok_ex :
+  coeff_ok 12 12 (-41) 1 (-1) false [2 ^ 60; -5; 123456789012; - 2 ^ 60] [11; - 2 ^ 60]
+    (rsh_sub 64 12 41 [2 ^ 60; -5; 123456789012; - 2 ^ 60] [11; - 2 ^ 60]) = 1.
+Proof. vm_compute. reflexivity. Qed.
+
+(* ---------------- cross-radix normalisation: totality of the model ---------------- *)
+(* the inner repacking loop of vec_znx_normalize_cross_base2k always terminates within its fuel
+   (ab + rb + 4 rounds): the model never answers None, for all radices >= 1, sizes, offsets, contents *)
+Theorem C08_normalize_cross_total : forall rb ab : Z, 1 <= rb -> 1 <= ab ->
+  forall (off : Z) (a r0 : list Z), normalize_cross 64 rb ab off a r0 <> None.
+Proof. exact normalize_cross_total. Qed.
+Print Assumptions C08_normalize_cross_total.
+
+Example C08_normalize_cross_total_ex :
+  normalize_cross 64 5 12 (-7) [2 ^ 62; -5; 123456789012] [0; 0; 0; 0] <> None.
+Proof. apply C08_normalize_cross_total; lia. Qed.
